@@ -8,6 +8,7 @@ import (
 	"io"
 	"os"
 	"path/filepath"
+	"strconv"
 	"strings"
 
 	mxj "github.com/clbanning/mxj/v2"
@@ -444,7 +445,7 @@ func c19GobCopy(c *Ctx, ms []map[string]interface{}) {
 func c19Run(c *Ctx) {
 	mustBeDefault(c)
 	mxj.XMLEscapeChars(true)
-	c.S.Rule = "cases = (list of 1..3 Maps, writer, indent, reader, fault): XML Maps decoded from 6 documents (attributes, repeated siblings, mixed content, special characters), JSON Maps from 6 objects (strings with braces, quotes, backslashes incl. a trailing escaped backslash, nested lists/maps, non-null scalars); writers XmlFile, XmlFileIndent, JsonFile, JsonFileIndent (default and safe) with indents {2 spaces, tab}; readers NewMapsFromXmlFile[Raw], NewMapsFromJsonFile[Raw]; faults: none, EVERY truncation offset, EVERY single-byte corruption offset x {X, <, {, quote, 0xFF}, missing file, directory. Oracle: intact => same count and order, each Map equal to the decode of its own encoding (JSON: the original), Raw contains the document text; truncation => error together with exactly the Maps wholly before the cut (clean end at a boundary); corruption => the Maps wholly before the fault are returned and equal, and for XML count/error agree with a reference sequential reader built on encoding/xml; unreadable file => error. Gob: all Maps encoded first, then all decoded (deep-equal up to nil-vs-empty); Copy: deep-equal, receiver unchanged, no shared container identity. non-trivial = faulted or intact read executed."
+	c.S.Rule = "cases = (list of 1..3 Maps, writer, indent, reader, fault): XML Maps decoded from 6 documents (attributes, repeated siblings, mixed content, special characters), JSON Maps from 6 objects (strings with braces, quotes, backslashes incl. a trailing escaped backslash, nested lists/maps, non-null scalars), plus lists that hold large documents (0.6 to 9 KB) before and between small ones (intact and 4 truncation offsets); writers XmlFile, XmlFileIndent, JsonFile, JsonFileIndent (default and safe) with indents {2 spaces, tab}; readers NewMapsFromXmlFile[Raw], NewMapsFromJsonFile[Raw]; faults: none, EVERY truncation offset, EVERY single-byte corruption offset x {X, <, {, quote, 0xFF}, missing file, directory. Oracle: intact => same count and order, each Map equal to the decode of its own encoding (JSON: the original), Raw contains the document text; truncation => error together with exactly the Maps wholly before the cut (clean end at a boundary); corruption => the Maps wholly before the fault are returned and equal, and for XML count/error agree with a reference sequential reader built on encoding/xml; unreadable file => error. Gob: all Maps encoded first, then all decoded (deep-equal up to nil-vs-empty); Copy: deep-equal, receiver unchanged, no shared container identity. non-trivial = faulted or intact read executed."
 	c.S.Assumptions = []string{"gob cannot distinguish nil from empty containers (encoding/gob)", "callers register map[string]interface{} and []interface{} with encoding/gob (its contract)", "the empty JSON object is skipped by the file readers by design and is not in the alphabet"}
 	xmlDocs := []string{`<a/>`, `<a x="1">t</a>`, `<r><b>&lt;1&gt; &amp; "q"</b><a/></r>`, `<r><a>1</a><b/><a>2</a></r>`, `<r y="2">m<c>v</c></r>`, `<doc><k n="1">é</k></doc>`}
 	jsonDocs := []string{`{"a":1}`, `{"a":"}{\""}`, `{"a":"x\\"}`, `{"a":{"b":[1,{"c":"]"}]},"d":true}`, `{"k":"<&>","l":["s",2.5,false]}`, `{"e":"\\\"{"}`, `{"p":"C:\\dir\\ "}`}
@@ -506,6 +507,45 @@ func c19Run(c *Ctx) {
 			}
 		}
 		run(c19Case{Kind: "missing", Format: format})
+		// large documents (beyond the readers' initial and grown buffer sizes: ~0.6, 1.1, 2.2, 4.5, 9 KB) before
+		// and between small ones
+		big := func(n int) string {
+			var sb strings.Builder
+			if format == "xml" {
+				sb.WriteString(`<big n="` + strconv.Itoa(n) + `">`)
+				for i := 0; sb.Len() < n; i++ {
+					sb.WriteString(`<item i="` + strconv.Itoa(i) + `">value &amp; ` + strconv.Itoa(i*7) + `</item>`)
+				}
+				sb.WriteString(`</big>`)
+			} else {
+				sb.WriteString(`{"n":` + strconv.Itoa(n) + `,"items":[`)
+				for i := 0; sb.Len() < n; i++ {
+					if i > 0 {
+						sb.WriteString(",")
+					}
+					sb.WriteString(`{"i":` + strconv.Itoa(i) + `,"v":"value } \" ` + strconv.Itoa(i*7) + `"}`)
+				}
+				sb.WriteString(`]}`)
+			}
+			return sb.String()
+		}
+		small1, small2 := docs[1], docs[3]
+		for _, l := range [][]string{{big(600), small1}, {small1, big(1100), small2}, {big(600), big(1100)}, {big(2200), small1, big(600)}, {big(4500), small1, small2}, {small1, big(9000), big(600), small2}} {
+			for _, in := range indents[:2] {
+				for _, raw := range []bool{false, true} {
+					base := c19Case{Kind: "file", Format: format, Docs: l, Indent: in, Raw: raw}
+					run(base)
+					n := c19Len(format, l, in, false)
+					for _, off := range []int{n - 1, n - 40, n / 2, 700} {
+						if off > 0 && off < n {
+							k := base
+							k.Fault, k.Offset = "truncate", off
+							run(k)
+						}
+					}
+				}
+			}
+		}
 	}
 	// gob and Copy: every list of 1..3 Maps from the JSON domain (non-null)
 	var gm []string
